@@ -252,9 +252,10 @@ def run(ctx, res):
                     (x["callee"], " -> ".join(x["chain"])), "%s:%d" % (x["term"]["span"]["file"], x["term"]["span"]["line"]))
     res.floor("BLOCKING", "blocking call sites reachable from eval", len(sites), 2)
 
-    if ctx.tier == "thorough":
-        from . import c25_thorough
-        c25_thorough.run(ctx, res, reach)
+    # native loops and native recursion inside one interpreter step are outside the tick budget: inventory them
+    # (cheap, so it runs in both tiers)
+    from . import c25_thorough
+    c25_thorough.run(ctx, res, reach)
 
     res.extra.update({"functions_analysed": len(reach), "roots": ["eval::eval"] + entry})
     res.explanation = (
@@ -262,7 +263,7 @@ def run(ctx, res):
         "both limits are tested on every path from the loop head to the step (edge-removal reachability: with the false edge "
         "of the comparison deleted the step is unreachable), the counter is incremented on every iteration, frames are pushed "
         "only after a checked step, the entry points configure both limits before anything that reaches eval, and blocking std "
-        "calls are behind the sandbox guard. Thorough tier adds the native-loop inventory and recursion over runtime values. "
+        "calls are behind the sandbox guard. NATIVE-LOOPS / RECURSION inventory every loop that is not driven by an iterator over a finite collection and every recursive component, against reviewed tables. "
         "Decides these necessary conditions, not wall-clock time of a single step.")
-    res.assumptions += ["a single native step (one eval_expr call) terminates; native loops/recursion are inventoried in the thorough tier",
+    res.assumptions += ["a single native step (one eval_expr call) terminates; native loops/recursion are inventoried (NATIVE-LOOPS, RECURSION)",
                         "the blocking-API table lists stdin reads, process waits, sleeps, channel receives, joins, accepts"]
